@@ -55,6 +55,13 @@ def budget(tier):
     return {"cases": 4000, "shards": 16}
 
 
+def exhaustive_objects():
+    for place in ("root", "nested"):
+        for how in ("required", "validator"):
+            for route in ("setattr", "setitem", "ctor"):
+                yield {"mode": "assign-object", "place": place, "how": how, "route": route}
+
+
 def exhaustive(tier):
     """Typed lists / dicts that also carry a container-level rule (validator on the list/dict field itself), filled
     up to that rule's limit, then one single-element operation at every index form: whatever is rejected must
@@ -68,6 +75,7 @@ def exhaustive(tier):
                     for bad_item in (False, True):
                         for held in ("assigned", "default"):  # the container was assigned by the user, or is still the field's default
                             yield {"mode": "limit", "kind": kind, "k": k, "what": op, "i": i, "bad_item": bad_item, "held": held}
+    yield from exhaustive_objects()
     # a configuration that the list already holds, edited into a state its own schema rejects, is offered to the
     # same list again (append / insert / item replacement): the rejection must leave the list as it was
     for configtype in (False, True):
@@ -237,6 +245,61 @@ def _limit_case(case, R):
         R.nontrivial = True
 
 
+def _assign_object_case(case, R):
+    """A configuration OBJECT (not a map) is assigned to a sub-configuration slot; the object is fine field by field but
+    fails validation as a whole (a required field is unset / its schema validator objects). Whether such an object is
+    accepted is not this property's business - but IF the assignment raises, nothing may have changed."""
+    cc = sandbox._state["cc"]
+    sub = cc.Schema()
+    sub.host = cc.StringField(required=True)
+    sub.port = cc.IntField(default=80)
+    sub.lo = cc.IntField(default=0)
+    sub.hi = cc.IntField(default=10)
+
+    @cc.validator(sub)
+    def lo_le_hi(cfg):
+        if cfg.lo is not None and cfg.hi is not None and cfg.lo > cfg.hi:
+            raise ValueError("lo must not exceed hi")
+    Server = cc.make_type(sub, "Server", module=__name__)
+    schema = cc.Schema()
+    schema.other = cc.IntField(default=1)
+    place = case["place"]
+    if place == "root":
+        schema.primary = Server
+        path = ("primary",)
+    else:
+        schema.site.primary = Server
+        path = ("site", "primary")
+    cfg = schema()
+    cfg[".".join(path)] = {"host": "old.example", "port": 8080}
+    obj = Server()
+    obj.port = 6000
+    if case["how"] == "validator":
+        obj.host = "new.example"
+        obj.lo, obj.hi = 9, 1
+    R.label("assign-object")
+    before = worlds.snapshot(cfg, cc, with_ids=True)
+    route = case["route"]
+    try:
+        if route == "setattr":
+            setattr(worlds.get_path(cfg, path[:-1]), path[-1], obj)
+        elif route == "setitem":
+            cfg[".".join(path)] = obj
+        else:
+            if place != "root":
+                return
+            schema(primary=obj)
+        raised = False
+    except Exception:
+        raised = True
+    if raised:
+        R.label("judged:assign-object")
+        R.nontrivial = True
+        after = worlds.snapshot(cfg, cc, with_ids=True)
+        R.check(before == after, "unchanged", "assign-object:" + route,
+                lambda: "assigning a configuration object that fails whole-configuration validation raised, and changed the configuration: %s" % worlds.diff(before, after))
+
+
 def _reoffer_case(case, R):
     cc = sandbox._state["cc"]
     R.label("reoffer")
@@ -287,6 +350,8 @@ def run_case(case, R):
         return _limit_case(case, R)
     if case.get("mode") == "reoffer":
         return _reoffer_case(case, R)
+    if case.get("mode") == "assign-object":
+        return _assign_object_case(case, R)
     cc = sandbox._state["cc"]
     spec = case["spec"]
     with sandbox.CaseDir() as d:
